@@ -3,7 +3,9 @@ From Coq Require Import List ZArith QArith Bool Permutation Lia.
 From DD Require Import Model.Circuit Model.Query Model.Enumerate Proofs.Semantics Proofs.DetCert
      Proofs.CountsA Proofs.QueryDefs
      Proofs.C07Defs Proofs.C07Valid Proofs.C07Urs Proofs.C07Indep
-     Proofs.C07IdealDefs Proofs.C07Uniform Proofs.C07Align Proofs.C07Final.
+     Proofs.C07IdealDefs Proofs.C07Uniform Proofs.C07Align Proofs.C07Final
+     Proofs.C07GeneralDefs Proofs.C07GeneralDist Proofs.C07GeneralAlign Proofs.C07GeneralUniform
+     Proofs.C07GeneralFinal Proofs.C07GeneralMulti.
 Import ListNotations.
 Open Scope Z_scope.
 
@@ -161,19 +163,137 @@ Theorem C07_ideal_streams_run : forall d ts e,
 Proof. exact joint1_runs. Qed.
 Print Assumptions C07_ideal_streams_run.
 
-(* General amount k -- NOT proved.  Statement: with Split ~ Multinomial(k; temp_c / temp_node) at
-   every Or node and every Perm uniform on the permutations of its length, the law of the returned
-   list is the k-fold product of the uniform law:
-     forall (c_1, .., c_k) in (filter (okA A) (enum i))^k (positions of the enumeration as atoms),
-       Pr[ sample_node k i = (c_1, .., c_k) up to literal order ] = (1 / countsA i)^k
-   (in particular every position is uniform and the positions are independent).
-   Proof idea (KUS): Or: Pr[split = (k_c)] * prod_c (1/t_c)^(k_c) * #{perms placing the blocks on the
-   target pattern} / k! = k!/prod k_c! * prod (t_c/t)^(k_c) * prod (1/t_c)^(k_c) * prod k_c! / k!
-   = (1/t)^k; And: positions of independent i.i.d. lists are stitched position-wise.
-   Missing: a finite-distribution monad over sample lists with the multinomial and the uniform
-   permutation laws (Q-valued), the counting lemma "the number of permutations of 0..k-1 that map a
-   block pattern (k_c) onto a given target pattern is prod k_c!", and the summation over child
-   lists; none of this is developed. *)
+(* ---------------------------------------------------------------------------------------------
+   (6) Uniformity, idealised, EVERY amount k >= 1 and EVERY output position j < k  (FULL for ideal
+       primitives; what "ideal" means is spelled out as definitions, Proofs/C07GeneralDefs.v):
+       dist X = list (X * Q) with dret / dbind / expect (a finite probability monad over Q, executable).
+       jointk d ts SL fuel a i : dist (choice stream * sample list)  is the law of sample_node at
+       node i asked for a samples when
+         - the split vector of an Or node i asked for a >= 1 samples is drawn from SL i a, ANY law with
+           split_ideal ts cs temp_i a (SL i a):  weights >= 0 of total 1, every vector satisfies the
+           contract split_ok (one entry per child, >= 0, sum a, 0 on zero-temp children), and
+               E[ entry of live child c ] = a * temp_c / temp_i
+           (nothing else: Binomial(a, w0/(w0+w1)) on two live children and a independent
+            WeightedAliasIndex draws on >= 3 live children are instances; multi_split = the law of a
+            independent categorical draws is PROVED to be one on every circuit, C07_multinomial_is_ideal);
+         - every shuffle of m elements applies a permutation drawn from uperm m = all m! permutations
+           with weight 1/m! each;
+         - all draws are independent (dbind over consecutive parts of the stream).
+       Proved: the law is a probability distribution on choice streams, EVERY stream of it satisfies
+       choices_ok, is consumed entirely by the model's sample_node / uniform_random_sampling and
+       yields the listed samples; and for every k >= 1 and every j < k the push-forward to the j-th
+       returned configuration gives mass exactly 1 / MCA to every member of ModelsA and 0 to every
+       other configuration.  Side condition or_no_true as in (5).
+       Not claimed (and not part of C07): independence BETWEEN positions (false for expectation-only
+       split laws).  Outside the model as before: Pcg32, f64 weights, rand_distr (chi-square run). *)
+
+(* node level: total mass 1 and, for every position j < a and every test function g on
+   configurations that does not depend on the order of literals,
+   E[g (sample j)] = average of g over filter (okA A) (enum i)  (countsA i entries) *)
+Theorem C07_uniform_ideal_marginal_node : forall d A ts SL,
+  idx_ok (circ d) = true -> temps_ok A (circ d) ts -> or_no_true (circ d) ->
+  splits_ideal (circ d) ts SL ->
+  forall i, (i < length (circ d))%nat -> forall f, (i < f)%nat -> forall a, 0 <= a ->
+  nth i (countsA A (circ d)) 0 <> 0 ->
+  (total (jointk d ts SL f a i) == 1)%Q /\
+  forall j, (j < Z.to_nat a)%nat -> forall g, respects g ->
+    (posE (jointk d ts SL f a i) j g
+     == 1 / inject_Z (nth i (countsA A (circ d)) 0%Z)
+        * qsumf g (filter (okA A) (nth i (enums (circ d)) [])))%Q.
+Proof. exact jointk_good. Qed.
+Print Assumptions C07_uniform_ideal_marginal_node.
+
+(* node level: every entry of the law runs on the model (sample_node_c = sample_node + contract flag):
+   the stream is consumed exactly, both flags are true, the listed samples are returned *)
+Theorem C07_ideal_streams_run_general : forall d A ts SL,
+  idx_ok (circ d) = true -> temps_ok A (circ d) ts -> splits_ideal (circ d) ts SL ->
+  forall i, (i < length (circ d))%nat -> forall f, (i < f)%nat -> forall a, 0 <= a ->
+  a = 0 \/ nth i (countsA A (circ d)) 0 <> 0 ->
+  forall r w, In (r, w) (jointk d ts SL f a i) ->
+  forall rest, sample_node_c d ts f a i (fst r ++ rest) = (snd r, rest, true, true).
+Proof. exact jointk_runs. Qed.
+Print Assumptions C07_ideal_streams_run_general.
+
+(* root level (temps as a hypothesis): lawk = jointk at the root with fuel = length C;
+   margk j = law of sort_abs (sample j) *)
+Theorem C07_uniform_ideal_marginal_root : forall C n A ts SL,
+  WF C n -> in_range n A -> temps_ok A C ts -> or_no_true C -> 0 < MCA C n A ->
+  splits_ideal C ts SL ->
+  forall k j, 1 <= k -> (j < Z.to_nat k)%nat ->
+  (total (lawk C n ts SL k) == 1)%Q /\
+  forall m,
+    (In m (ModelsA C n A) -> (mass (margk j (lawk C n ts SL k)) m == 1 / inject_Z (MCA C n A))%Q) /\
+    (~ In m (ModelsA C n A) -> (mass (margk j (lawk C n ts SL k)) m == 0)%Q).
+Proof. exact lawk_marginal. Qed.
+Print Assumptions C07_uniform_ideal_marginal_root.
+
+Theorem C07_ideal_law_runs_root : forall C n A ts SL,
+  WF C n -> in_range n A -> temps_ok A C ts -> 0 < MCA C n A -> splits_ideal C ts SL ->
+  forall k r w, 0 <= k -> In (r, w) (lawk C n ts SL k) ->
+  (0 <= w)%Q /\
+  sample_node (build C n) ts (length C) k (root C) (fst r) = (snd r, [], true) /\
+  choices_ok (build C n) ts (length C) k (root C) (fst r).
+Proof. exact lawk_runs. Qed.
+Print Assumptions C07_ideal_law_runs_root.
+
+(* FINAL form, uniform_random_sampling (exec_ok discharged as in C07_valid_final).
+   urs_temps = the temps sample_node is called with; urs_stream_law = the ideal law on choice streams;
+   urs_marginal .. j = its push-forward under  chs |-> configuration number j of the list
+   uniform_random_sampling returns on chs. *)
+Theorem C07_uniform_ideal_marginal : forall C n A s SL,
+  WFQ C n -> (0 < n)%nat -> in_range n A -> Clean C s -> or_no_true C -> 0 < MCA C n A ->
+  splits_ideal C (urs_temps (build C n) A s) SL ->
+  forall k, 1 <= k ->
+  (total (urs_stream_law (build C n) A SL k s) == 1)%Q /\
+  (forall chs w, In (chs, w) (urs_stream_law (build C n) A SL k s) ->
+     (0 <= w)%Q /\
+     urs_choices_okb (build C n) A k chs s = true /\
+     snd (uniform_random_sampling (build C n) A k chs s) = true /\
+     exists L, snd (fst (uniform_random_sampling (build C n) A k chs s)) = Some L /\
+               length L = Z.to_nat k) /\
+  forall j, (j < Z.to_nat k)%nat -> forall m,
+    (In m (ModelsA C n A) ->
+     (mass (urs_marginal (build C n) A SL k s j) m == 1 / inject_Z (MCA C n A))%Q) /\
+    (~ In m (ModelsA C n A) -> (mass (urs_marginal (build C n) A SL k s j) m == 0)%Q).
+Proof. exact urs_uniform_marginal. Qed.
+Print Assumptions C07_uniform_ideal_marginal.
+
+(* the hypothesis splits_ideal is satisfiable on every circuit: a independent categorical draws *)
+Theorem C07_multinomial_is_ideal : forall C A ts,
+  idx_ok C = true -> temps_ok A C ts -> or_no_true C -> splits_ideal C ts (SL_multi C ts).
+Proof. exact SL_multi_ideal. Qed.
+Print Assumptions C07_multinomial_is_ideal.
+
+(* ... so for that law nothing is assumed about the split law any more *)
+Theorem C07_uniform_ideal_marginal_multinomial : forall C n A s,
+  WFQ C n -> (0 < n)%nat -> in_range n A -> Clean C s -> or_no_true C -> 0 < MCA C n A ->
+  forall k, 1 <= k ->
+  let SL := SL_multi C (urs_temps (build C n) A s) in
+  (total (urs_stream_law (build C n) A SL k s) == 1)%Q /\
+  (forall chs w, In (chs, w) (urs_stream_law (build C n) A SL k s) ->
+     (0 <= w)%Q /\
+     urs_choices_okb (build C n) A k chs s = true /\
+     snd (uniform_random_sampling (build C n) A k chs s) = true /\
+     exists L, snd (fst (uniform_random_sampling (build C n) A k chs s)) = Some L /\
+               length L = Z.to_nat k) /\
+  forall j, (j < Z.to_nat k)%nat -> forall m,
+    (In m (ModelsA C n A) ->
+     (mass (urs_marginal (build C n) A SL k s j) m == 1 / inject_Z (MCA C n A))%Q) /\
+    (~ In m (ModelsA C n A) -> (mass (urs_marginal (build C n) A SL k s j) m == 0)%Q).
+Proof. exact urs_uniform_marginal_multi. Qed.
+Print Assumptions C07_uniform_ideal_marginal_multinomial.
+
+(* the uniform shuffle: weights >= 0 of total 1 on permutations of 0..m-1, and the element moved to
+   any fixed position j is uniformly distributed *)
+Theorem C07_uniform_shuffle : forall m,
+  (total (uperm m) == 1)%Q /\
+  (forall p w, In (p, w) (uperm m) ->
+     length p = m /\ is_perm p = true /\ (forall x, In x p -> (x < m)%nat) /\ (0 <= w)%Q) /\
+  forall (h : nat -> Q) j, (j < m)%nat ->
+    (expect (uperm m) (fun p => h (nth j p 0%nat))
+     == 1 / inject_Z (Z.of_nat m) * qsumf h (seq 0 m))%Q.
+Proof. exact uperm_ideal. Qed.
+Print Assumptions C07_uniform_shuffle.
 
 (* ---------------- non-vacuity: the hypotheses are satisfiable, the conclusions are not trivial *)
 
@@ -334,4 +454,93 @@ Proof.
   - lia.
   - vm_compute. reflexivity.
   - vm_compute. reflexivity.
+Qed.
+
+(* ---------------------------------------------------------------------------------------------
+   non-vacuity of (6): ex_circ = (1 and 2) or (-1 and (2 or -2)), n = 2, no assumptions:
+   Or root 7 with two live children (temps 1 and 2), And nodes 2 and 6, Or node 5 with two live
+   children; MCA = 3.  The whole finite law is computed (amount 3: 11304 weighted streams). *)
+Definition exk_ts : list Z := [1; 1; 1; 1; 1; 2; 2; 3].
+Definition exk_SL := SL_multi ex_circ exk_ts.
+Definition exk_third : list (cfg * Q) := [([1; 2], (1 # 3)%Q); ([-1; 2], (1 # 3)%Q); ([-1; -2], (1 # 3)%Q)].
+
+Example exk_temps : urs_temps ex_d [] ex_s0 = exk_ts /\ MCA ex_circ 2 [] = 3 /\
+                    ModelsA ex_circ 2 [] = [[1; 2]; [-1; 2]; [-1; -2]].
+Proof. vm_compute. repeat split. Qed.
+
+(* the split laws used are ideal (executable check), e.g. at the root for amounts 2 and 3 *)
+Example exk_split_ideal :
+  split_idealb exk_ts [2; 6]%nat 3 2 (exk_SL 7%nat 2) = true /\
+  split_idealb exk_ts [2; 6]%nat 3 3 (exk_SL 7%nat 3) = true /\
+  split_idealb exk_ts [1; 4]%nat 2 3 (exk_SL 5%nat 3) = true /\
+  map (fun vw => (fst vw, Qred (snd vw))) (exk_SL 7%nat 2)
+  = [([2; 0], (1 # 9)%Q); ([1; 1], (2 # 9)%Q); ([1; 1], (2 # 9)%Q); ([0; 2], (4 # 9)%Q)].
+Proof. vm_compute. repeat split. Qed.
+
+(* amount 2: both positions uniform; amount 3: all three positions uniform *)
+Example exk_marginals_2 :
+  Z.of_nat (length (lawk ex_circ 2 exk_ts exk_SL 2)) = 80 /\
+  map (fun j => collect (margk j (lawk ex_circ 2 exk_ts exk_SL 2))) [0; 1]%nat = [exk_third; exk_third].
+Proof. vm_compute. split; reflexivity. Qed.
+
+Example exk_marginals_3 :
+  Z.of_nat (length (lawk ex_circ 2 exk_ts exk_SL 3)) = 11304 /\
+  map (fun j => collect (margk j (lawk ex_circ 2 exk_ts exk_SL 3))) [0; 1; 2]%nat
+  = [exk_third; exk_third; exk_third].
+Proof. vm_compute. split; reflexivity. Qed.
+
+(* the same through uniform_random_sampling itself (push-forward of the stream law), every stream
+   respecting the contract and being used up, total mass 1 *)
+Example exk_urs_3 :
+  let SL := SL_multi ex_circ (urs_temps ex_d [] ex_s0) in
+  map (fun j => collect (urs_marginal ex_d [] SL 3 ex_s0 j)) [0; 1; 2]%nat = [exk_third; exk_third; exk_third] /\
+  forallb (fun e => urs_choices_okb ex_d [] 3 (fst e) ex_s0 && snd (uniform_random_sampling ex_d [] 3 (fst e) ex_s0)
+                    && Qle_bool 0 (snd e))
+          (urs_stream_law ex_d [] SL 3 ex_s0) = true /\
+  total_red (urs_stream_law ex_d [] SL 3 ex_s0) = 1%Q.
+Proof. vm_compute. repeat split. Qed.
+
+(* positions are NOT independent in general and that is not claimed: with amount 2 the pair of
+   returned configurations is not the product law (mass of ([1;2],[1;2]) is 1/9 here because the
+   multinomial split is the exact one; an expectation-only law may differ) *)
+
+(* the Binomial law of rand_distr on two live children is another instance: explicit
+   Binomial(a, p) weights C(a,k) p^k (1-p)^(a-k) on the vectors [k; a-k] *)
+Definition exk_binom (a : nat) (p : Q) : dist (list Z) :=
+  map (fun k => ([Z.of_nat k; Z.of_nat (a - k)],
+                 (inject_Z (Z.of_nat (fact a / (fact k * fact (a - k)))) * p ^ Z.of_nat k
+                  * (1 - p) ^ Z.of_nat (a - k))%Q))
+      (seq 0 (S a)).
+Definition exk_SLb (i : nat) (a : Z) : dist (list Z) :=
+  if Nat.eqb i 7 then exk_binom (Z.to_nat a) (1 # 3) else exk_binom (Z.to_nat a) (1 # 2).
+
+Example exk_binomial_ideal :
+  forallb (fun a => split_idealb exk_ts [2; 6]%nat 3 a (exk_SLb 7%nat a)
+                    && split_idealb exk_ts [1; 4]%nat 2 a (exk_SLb 5%nat a)) [1; 2; 3; 4; 5] = true /\
+  map (fun vw => (fst vw, Qred (snd vw))) (exk_SLb 7%nat 3)
+  = [([0; 3], (8 # 27)%Q); ([1; 2], (4 # 9)%Q); ([2; 1], (2 # 9)%Q); ([3; 0], (1 # 27)%Q)].
+Proof. vm_compute. split; reflexivity. Qed.
+
+Example exk_binomial_marginals_3 :
+  map (fun j => collect (margk j (lawk ex_circ 2 exk_ts exk_SLb 3))) [0; 1; 2]%nat
+  = [rev exk_third; rev exk_third; rev exk_third] /\
+  forallb (fun e => choices_okb ex_d exk_ts 8 3 7 (fst (fst e))) (lawk ex_circ 2 exk_ts exk_SLb 3) = true.
+Proof. vm_compute. split; reflexivity. Qed.
+
+(* the final theorem applies to the example for EVERY amount (here k = 3, position 2) *)
+Example exk_final_applies :
+  let SL := SL_multi ex_circ (urs_temps (build ex_circ 2) [] ex_s0) in
+  forall m, In m (ModelsA ex_circ 2 []) ->
+    (mass (urs_marginal (build ex_circ 2) [] SL 3 ex_s0 2) m == 1 / inject_Z (MCA ex_circ 2 []))%Q.
+Proof.
+  intros SL m Hm.
+  destruct (C07_uniform_ideal_marginal_multinomial ex_circ 2 [] ex_s0) with (k := 3) as [_ [_ H]].
+  - apply check_wf_WFQ. vm_compute. reflexivity.
+  - lia.
+  - intros l [].
+  - exact ex_clean.
+  - exact ex_or_no_true.
+  - vm_compute. reflexivity.
+  - lia.
+  - apply (H 2%nat); [cbn; lia|exact Hm].
 Qed.
